@@ -281,28 +281,23 @@ Proof.
     rewrite <- app_assoc. cbn. eapply IH; [|exact H]. eapply reachS; eassumption.
 Qed.
 
-Lemma run_reach_calm c : forall ls h s s',
-  reach_calm c h s -> forallb (fun l => true) ls = true ->
-  (fix go (s : state) (ls : list label) : option state :=
-     match ls with
-     | [] => Some s
-     | l :: r => if calm c s l then match step c s l with Some s1 => go s1 r | None => None end else None
-     end) s ls = Some s' -> reach_calm c (rev ls ++ h) s'.
-Proof.
-  induction ls as [|l r IH]; cbn; intros h s s' R _ H.
-  - inversion H; subst. exact R.
-  - destruct (calm c s l) eqn:CA; [|discriminate]. destruct (step c s l) as [s1|] eqn:E; [|discriminate].
-    rewrite <- app_assoc. cbn. eapply IH; [|reflexivity|exact H]. eapply rcS; eassumption.
-Qed.
-
 Fixpoint run_calm (c : cfg) (s : state) (ls : list label) : option state :=
   match ls with
   | [] => Some s
   | l :: r => if calm c s l then match step c s l with Some s1 => run_calm c s1 r | None => None end else None
   end.
 
+Lemma run_reach_calm c : forall ls h s s',
+  reach_calm c h s -> run_calm c s ls = Some s' -> reach_calm c (rev ls ++ h) s'.
+Proof.
+  induction ls as [|l r IH]; cbn; intros h s s' R H.
+  - inversion H; subst. exact R.
+  - destruct (calm c s l) eqn:CA; [|discriminate]. destruct (step c s l) as [s1|] eqn:E; [|discriminate].
+    rewrite <- app_assoc. cbn. eapply IH; [|exact H]. eapply rcS; eassumption.
+Qed.
+
 Lemma run_calm_reach c ls s' : run_calm c (init c) ls = Some s' -> reach_calm c (rev ls ++ []) s'.
-Proof. intros H. apply (run_reach_calm c ls [] (init c) s'); [constructor | reflexivity | exact H]. Qed.
+Proof. intros H. apply (run_reach_calm c ls [] (init c) s'); [constructor | exact H]. Qed.
 
 (* ---- regression: the run-once wedge of the rule BEFORE the fix in receiver.RunOnce ---- *)
 (* own instance 0 has an older good snapshot (seq 0) and a newest undecodable one (seq 1).  Start-up
@@ -504,3 +499,6 @@ Lemma demo_facts_once :
 Proof.
   split; [exact demo_good_once|]. repeat split; try reflexivity. apply demo_quiescent_once.
 Qed.
+
+Lemma demo_reach_calm_once : reach_calm (demo_cfg true) (rev (demo_trace ++ [LBottom]) ++ []) demo_state_once.
+Proof. apply run_calm_reach. vm_compute. reflexivity. Qed.
